@@ -116,12 +116,16 @@ class PySMTType(object):
         return self.name
 
     def as_smtlib(self, funstyle: bool=True) -> str:
+        # The name of a declared sort is a symbol: it is quoted when needed
+        from pysmt.utils import quote
         name = self.name
+        if self.is_custom_type() and name is not None:
+            name = quote(name)
         if self.args:
             assert self.basename is not None
             args = " ".join([arg.as_smtlib(funstyle=False) \
                              for arg in self.args])
-            name = "(" + self.basename + " " + args + ")"
+            name = "(" + quote(self.basename) + " " + args + ")"
         if funstyle:
             return "() %s" % name
         else:
